@@ -306,3 +306,66 @@ def bandwidth(V, fn):
             out.prove('upper-limit-is-last-frequency-above-ratio*peak', T.seq(r, at(fs, last)))
         else:
             out.prove('index-range-is-first-and-last-above-peak/ratio', T.sand(T.seq(r[0], first), T.seq(r[1], last)))
+
+
+# ------------------------------------------------------------------------------------------------ object level
+import contracts_common_signal as CS
+
+
+@unit('C07', 'Signal.smooth_fa_spectrum', functions=['eqsig.single.Signal.gen_smooth_fa_spectrum', 'eqsig.single.Signal.generate_smooth_fa_spectrum',
+                                                     'eqsig.single.Signal.smooth_fa_spectrum'],
+      cases=[dict(how=h, cls=c, pre=p) for h in ('lazy', 'gen(band)', 'generate(band)', 'gen(targets, band)') for c in ('Signal', 'AccSignal')
+             for p in ('fresh', 'after-a-request-with-another-band') if not (h == 'lazy' and p != 'fresh')],
+      modes=('unbounded',), budget_ms=20000)
+def object_level(V, how, cls, pre):
+    """Modular over the function-level contract above (calc_smooth_fa_spectrum is summarised as a function of its four arguments):
+    the object's smoothed spectrum is calc_smooth_fa_spectrum(fa_frequencies, fa_spectrum, target frequencies, band) for the band and
+    targets of THIS request (band 40 and the object's own targets for a lazy read) -- also when the object already holds a smoothed
+    spectrum for another band."""
+    st = {}
+
+    def setup():
+        CS.install_cache_summaries(V)
+        n = V.size('n', 2)
+        x = V.array('x', n, origin='param')
+        dt = V.real('dt')
+        V.assume(dt > 0)
+        sig = S.make_signal(V, cls, x, dt)
+        b = V.real('band')
+        V.assume(b >= 5, b <= 100)
+        st.update(sig=sig, band=b, x=x)
+        if how == 'gen(targets, band)':
+            m = V.size('m', 1)
+            sf = V.array('targets', m, origin='param')
+            st['targets'] = sf
+        if pre != 'fresh':
+            b0 = V.real('band0')
+            V.assume(b0 >= 5, b0 <= 100)
+            st['band0'] = b0
+        return ((sig,), {})
+
+    def op(itp, sig):
+        if pre != 'fresh':
+            itp.call(itp.get_attr(sig, 'gen_smooth_fa_spectrum'), [], dict(band=st['band0']))
+        if how == 'gen(band)':
+            itp.call(itp.get_attr(sig, 'gen_smooth_fa_spectrum'), [], dict(band=st['band']))
+        elif how == 'generate(band)':
+            itp.call(itp.get_attr(sig, 'generate_smooth_fa_spectrum'), [], dict(band=st['band']))
+        elif how == 'gen(targets, band)':
+            itp.call(itp.get_attr(sig, 'gen_smooth_fa_spectrum'), [], dict(smooth_fa_freqs=st['targets'], band=st['band']))
+        return itp.get_attr(sig, 'smooth_fa_spectrum')
+    for out in V.run(op, setup):
+        out.replay_info = dict(module='smoothing', op='object', how=how, cls=cls, pre=pre)
+        if not out.no_raise():
+            continue
+        sig = st['sig']
+        got = out.result
+        band = 40 if how == 'lazy' else st['band']
+        f = V.itp.get_attr(sig, 'fa_frequencies')
+        F = V.itp.get_attr(sig, 'fa_spectrum')
+        targets = V.itp.get_attr(sig, 'smooth_fa_freqs')
+        if how == 'gen(targets, band)':
+            out.prove('requested-targets-are-the-objects-targets', targets is st['targets'] or CS.values_equal(V, targets, st['targets']))
+        want = V.itp.call(V.itp.get_function(FR + 'calc_smooth_fa_spectrum'), [f, F, targets], dict(band=band))
+        out.prove('smoothed-spectrum-is-calc_smooth_fa_spectrum(frequencies, spectrum, targets, band-of-this-request)', CS.values_equal(V, got, want))
+        out.unchanged('x', st['x'])
